@@ -77,6 +77,106 @@ def operand_ownership_rule(ctx, R4):
 
 
 
+def fresh_result_rule(ctx, R):
+    """The list a semantic function returns is extended by its callers (get_instr_expr_args appends the count update of a repeated string instruction,
+    lifters concatenate helper results with +=).  A function of ia32_sem that returns a module-level list hands out shared state: the second lifting sees
+    what the first one appended.  Every `return` of a module-level function of ia32_sem returns a value built in the call: not a bare module-level name
+    bound to a list / dict / set display or constructor."""
+    sem = ctx.mod('ia32_sem')
+    shared = {}
+    for st in sem.tree.body:
+        if isinstance(st, ast.Assign) and len(st.targets) == 1 and isinstance(st.targets[0], ast.Name):
+            v = st.value
+            if isinstance(v, (ast.List, ast.Dict, ast.Set, ast.ListComp, ast.DictComp)) or (isinstance(v, ast.Call) and u(v.func) in ('list', 'dict', 'set')):
+                shared[st.targets[0].id] = st
+    n = 0
+    for fname, fn in sorted(sem.funcs.items()):
+        local = set(a.arg for a in fn.args.args)
+        for x in walk_no_nested(fn):
+            if isinstance(x, (ast.Assign, ast.AugAssign)):
+                for tg in (x.targets if isinstance(x, ast.Assign) else [x.target]):
+                    if isinstance(tg, ast.Name):
+                        local.add(tg.id)
+            if isinstance(x, ast.For) and isinstance(x.target, ast.Name):
+                local.add(x.target.id)
+        for r in walk_no_nested(fn):
+            if not (isinstance(r, ast.Return) and r.value is not None):
+                continue
+            n += 1
+            v = r.value
+            if isinstance(v, ast.Name) and v.id in shared and v.id not in local:
+                R.violation('%s: %s' % (fname, norm(r)), 'shared-result:%s:%s' % (fname, v.id), '%s returns the module-level %s itself: callers extend the list they are given '
+                            '(the count update of a repeated string instruction is appended in place), so a later lifting starts from the extended list'
+                            % (fname, v.id), where(sem, r), witness='lifting f3 6e twice: the second list assigns ecx twice')
+    R.ok('ia32_sem: results are built per call', sample='%d return statements of ia32_sem return a value built in the call' % n)
+
+
+READONLY_METHODS = ('__str__', 'breakflow', 'splitflow', 'dstflow', 'getdstflow', 'getnextflow', 'is_subcall', 'is_mem')
+
+
+def readonly_methods_rule(ctx, R):
+    """Rendering an instruction and asking for its control-flow metadata are reads: the same decoded object is rendered in Intel and in AT&T syntax, one
+    after the other.  In these methods of x86_mn nothing reachable from `self` is changed in place - neither through `self.x...` nor through a local bound
+    to `self.x` / an element of it without a copy (`prefix = self.prefix; prefix.remove(p)`).  A slice `self.x[:]`, list(..), dict(..), a comprehension or
+    .copy() makes the local the method's own."""
+    arch = ctx.mod('ia32_arch')
+    meths = arch.methods('x86_mn')
+    MUT_ = {'append', 'extend', 'insert', 'reverse', 'sort', 'pop', 'remove', 'update', 'setdefault', 'clear', 'add', 'discard', 'popitem'}
+
+    def self_path(e):
+        while isinstance(e, (ast.Attribute, ast.Subscript)):
+            if isinstance(e, ast.Subscript) and isinstance(e.slice, ast.Slice):
+                return False
+            if isinstance(e, ast.Attribute) and isinstance(e.value, ast.Name) and e.value.id == 'self':
+                return True
+            e = e.value
+        return False
+    n_m = 0
+    for name in READONLY_METHODS:
+        fn = meths.get(name)
+        if fn is None:
+            continue
+        n_m += 1
+        alias = {}
+        for n in walk_no_nested(fn):
+            if isinstance(n, ast.Assign) and len(n.targets) == 1 and isinstance(n.targets[0], ast.Name) and self_path(n.value):
+                alias.setdefault(n.targets[0].id, n.value)
+            if isinstance(n, ast.For) and isinstance(n.target, ast.Name) and self_path(n.iter):
+                alias.setdefault(n.target.id, n.iter)
+        inst = 'x86_mn.%s is read-only' % name
+        bad = False
+        for n in walk_no_nested(fn):
+            tgt = what = None
+            if isinstance(n, ast.Call) and isinstance(n.func, ast.Attribute) and n.func.attr in MUT_:
+                tgt, what = n.func.value, '.%s()' % n.func.attr
+            elif isinstance(n, (ast.Assign, ast.AugAssign)):
+                for tg in (n.targets if isinstance(n, ast.Assign) else [n.target]):
+                    if isinstance(tg, (ast.Subscript, ast.Attribute)):
+                        tgt, what = tg.value, 'store to %s' % u(tg)
+            elif isinstance(n, ast.Delete):
+                for tg in n.targets:
+                    if isinstance(tg, ast.Subscript):
+                        tgt, what = tg.value, 'item deletion'
+            if tgt is None:
+                continue
+            root = tgt
+            while isinstance(root, (ast.Attribute, ast.Subscript)):
+                root = root.value
+            if self_path(tgt) or (isinstance(tgt, ast.Name) and tgt.id == 'self'):
+                bad = True
+                R.violation(inst, 'readonly:%s:%s:%s' % (name, u(tgt), what), 'x86_mn.%s changes %s in place (%s): a second rendering / query of the same instruction sees another instruction'
+                            % (name, u(tgt), what), where(arch, n))
+            elif isinstance(root, ast.Name) and root.id in alias:
+                bad = True
+                R.violation(inst, 'readonly:%s:%s<-%s:%s' % (name, root.id, u(alias[root.id]), what), 'x86_mn.%s binds %s to %s without a copy and changes it in place (%s): the decoded '
+                            'instruction itself is changed by rendering it' % (name, root.id, u(alias[root.id]), what), where(arch, n),
+                            witness="i = dis(66 0f 6f 00); str(i) is movdqa, the AT&T rendering that follows is movq (the 66 prefix was removed from i.prefix)")
+        if not bad:
+            R.ok(inst, sample='%s: no store through self or an uncopied alias of it' % inst)
+    if n_m < 4:
+        raise AnalysisError('x86_mn: only %d of the read-only methods found' % n_m)
+
+
 def run(ctx, report):
     mods = [ctx.mod(m) for m in SCOPE]
     report.explanation = (
@@ -416,6 +516,12 @@ def run(ctx, report):
     if n_shared == 0:
         raise AnalysisError('no module-level instance with run-time methods found (x86mndb = x86allmncs() expected)')
 
+    R12 = report.rule('C12.D12', 'a semantic function never returns a module-level list (its callers extend what they are given)', floor=1)
+    fresh_result_rule(ctx, R12)
+
+    R11 = report.rule('C12.D11', 'rendering an instruction or asking for its flow metadata does not change the instruction object', floor=4)
+    readonly_methods_rule(ctx, R11)
+
     R10 = report.rule('C12.D10', 'copy() of every node class is a deep copy (the freshness argument of D3 rests on it)', floor=8)
     from .c15 import copy_visit_rule as _cvr
     _cvr(ctx, R10, only='copy')
@@ -480,7 +586,9 @@ def run(ctx, report):
                     if lx and lx[0] in lexers:
                         entries.append((fname, fn, n, lx[0]))
         if not entries:
-            raise AnalysisError('%s: no function parses with the module-level lexer' % mname)
+            # (a lexer built or cloned per call keeps no state between calls)
+            R9.ok('%s: no function parses with a module-level lexer' % mname, sample='%s: the lexer is not shared between calls' % mname)
+            continue
         for fname, fn, call, lx in entries:
             for attr, rule_fn in sorted(kept.items()):
                 inst = '%s::%s: %s.%s' % (mname, fname, lx, attr)
@@ -552,4 +660,6 @@ MUTANTS = [
     ('att-lexer-lineno-kept', 'miasmx/arch/ia32_att.py', "    lexer_att.lineno = 1\n", "", 'C12.D9'),
     ('slice-copy-removed', 'miasmx/expression/expression.py', "    def copy(self):\n        return ExprSlice(self.arg.copy(), self.start, self.stop)\n", "", 'C12.D10'),
     ('find-mnemo-inserts', 'miasmx/arch/ia32_arch.py', "        if name in self.mnemo_lookup.keys():\n            return self.mnemo_lookup[name]\n        else:\n            return []", "        return self.mnemo_lookup.setdefault(name, [])", 'C12.D7'),
+    ('str-prefix-alias', 'miasmx/arch/ia32_arch.py', "        prefix = self.prefix[:]\n        mnemo = [ self.m.name ]", "        prefix = self.prefix\n        mnemo = [ self.m.name ]", 'C12.D11'),
+    ('into-shared-empty-list', 'miasmx/arch/ia32_sem.py', "def into(info):\n    return []\n", "no_effect = []\ndef into(info):\n    return no_effect\n", 'C12.D12'),
 ]
